@@ -452,6 +452,9 @@ pub struct Observed {
     pub rules: Option<usize>,
     pub sc: (usize, usize, usize, usize),
     pub st: (usize, usize, usize, usize),
+    /// the same four counters as `steps_stats()` states them (`st` is read through the
+    /// `writer::Stats` trait methods); `None` when the counters come from the summary text
+    pub st_struct: Option<(usize, usize, usize, usize)>,
     pub parsing_errors: usize,
     pub hook_errors: usize,
     pub summary_scenarios: Option<usize>,
@@ -501,20 +504,10 @@ where
         st: (s.passed_steps(), s.skipped_steps(), s.failed_steps(), s.retried_steps()),
         parsing_errors: s.parsing_errors(),
         hook_errors: s.hook_errors(),
+        st_struct: Some((st.passed, st.skipped, st.failed, st.retried)),
         ..Observed::default()
     }
-    .also(|o| {
-        assert_eq!((st.passed, st.skipped, st.failed, st.retried), o.st, "steps_stats() != Stats trait");
-    })
 }
-
-trait Also: Sized {
-    fn also(self, f: impl FnOnce(&Self)) -> Self {
-        f(&self);
-        self
-    }
-}
-impl<T> Also for T {}
 
 /// Runs the stream through the nesting; returns what was observed, what the
 /// recording writer saw, and the counters snapshot taken at run-Finished.
@@ -583,6 +576,15 @@ pub fn check(nest: Nest, stream: &[Ev], obs: &Observed, seen: &[Seen], at_finish
     let mut out = Vec::new();
     let want = recount(stream);
     let mut o = obs.clone();
+    // the two public readings of the step counters (trait methods / `steps_stats()`) agree
+    if let Some(ss) = obs.st_struct {
+        if ss != obs.st {
+            out.push(Verdict {
+                key: "stats-trait".into(),
+                msg: format!("step counters (passed, skipped, failed, retried): steps_stats() says {ss:?}, the Stats trait methods say {:?}", obs.st),
+            });
+        }
+    }
     // summary text: exactly one write, after run-Finished
     let writes: Vec<(usize, &String)> = seen
         .iter()
